@@ -71,6 +71,7 @@ def maps(chk):
             dims = {0: (128, 128), 1: (128, 128), 2: (64, 64)}
         ms = M.MapSet(*[M.Map(i, 0, width=wh[0], height=wh[1]) for i, wh in dims.items()])
         first_mid = rng.randrange(3)
+        kept_packets = []
         for _k in range(rng.randrange(2, 7)):
             mid = rng.randrange(3) if _k != 1 else first_mid
             mw, mh = dims[mid]
@@ -89,6 +90,9 @@ def maps(chk):
             if rng.random() < 0.3 and w > 1 and _k:
                 npx -= rng.randrange(1, w)              # an incomplete last row: pixel i still lands at (i mod width, i div width)
             px = bytes(rng.randrange(1, 256) if _k == 0 else rng.choice([0, 0, rng.randrange(256)]) for _ in range(npx))
+            if rng.random() < 0.5 or _k == 0:
+                px = bytearray(px)            # an application-built packet carries whatever bytes-like object it was given
+            kept_packets.append((None, px, bytes(px)))
             pk = M() if rng.random() < 0.4 else M(context=ConnectionContext(protocol_version=rng.choice([379, 451, 452, 453, 471, 757])))      # the tracker ignores the packet's version
             pk.map_id, pk.scale, pk.icons = mid, rng.randrange(5), []
             pk.width, pk.height, pk.offset, pk.pixels = w, h, (ox, oz), px
@@ -116,13 +120,20 @@ def maps(chk):
                                                                                                             'observed': {'outcome': outcome, 'flags': [mp.is_tracking_position, mp.is_locked], 'flags_before': list(old_flags)}},
                                   'map packet %dx%d at offset (%d, %d) on a %dx%d map runs past the end: %s, flags %s -> %s; expected IndexError and untouched flags' % (
                                       w, h + 2, ox, oz, mw, mh, outcome, list(old_flags), [mp.is_tracking_position, mp.is_locked]))
-                reqs.append(('map_patch', [mw, ox, oz, w, px[:first_out], before]))
+                reqs.append(('map_patch', [mw, ox, oz, w, bytes(px[:first_out]), before]))
                 obs.append(({'map': mid, 'map_size': [mw, mh], 'width': w, 'height': h + 2, 'offset': [ox, oz], 'past_the_end': True}, list(mp.pixels),
                             (mp.scale,), (pk.scale,)))
                 continue
             pk.apply_to_map_set(ms)
             mp = ms.maps_by_id[mid]
-            reqs.append(('map_patch', [mw, ox, oz, w, px, before]))
+            # an update changes the map, never the packets that were applied before (their pixel data is theirs)
+            for _n, pobj, orig in kept_packets:
+                if bytes(pobj) != orig:
+                    chk.violation('map', 'map:packet-mutated', {'case': {'map': mid, 'map_size': [mw, mh], 'width': w, 'height': h, 'offset': [ox, oz]}, 'observed': 'pixel data of an earlier packet changed'},
+                                  'after a %dx%d update at (%d, %d) of a %dx%d map, the pixel data of a packet applied earlier has changed (packet and map share a buffer)' % (w, h, ox, oz, mw, mh))
+                    kept_packets[:] = []
+                    break
+            reqs.append(('map_patch', [mw, ox, oz, w, bytes(px), before]))
             obs.append(({'map': mid, 'map_size': [mw, mh], 'width': w, 'height': h, 'offset': [ox, oz]}, list(mp.pixels), (mp.scale, mp.is_tracking_position, mp.is_locked), (pk.scale, pk.is_tracking_position, pk.is_locked)))
     # a packet for a map the set does not know creates a default map
     ms = M.MapSet()
